@@ -8,7 +8,9 @@ VARIABLES raws,     \* squeeze outputs since the last reset
 vars == <<l, raws, digest, counter, queries>>
 Init == l = 1 /\ raws = <<>> /\ digest = "none" /\ counter = "0x0" /\ queries = <<>>
 
-Reset == /\ Is("reset") /\ Consume /\ raws' = <<>> /\ digest' = Ev.digest /\ counter' = "0x0" /\ queries' = <<>>
+\* a case starts from any transcript state (digest, counter): the samples are H(digest, counter), H(digest, counter + 1), ...
+Reset == /\ Is("reset") /\ Consume /\ raws' = <<>> /\ digest' = Ev.digest /\ queries' = <<>>
+         /\ counter' = IF "counter" \in DOMAIN Ev THEN Ev.counter ELSE "0x0"
 
 Squeeze ==
     /\ Is("squeeze") /\ Consume
@@ -35,6 +37,7 @@ QueriesEv ==
 QueriesRet ==
     /\ Is("queries.ret") /\ Consume
     /\ Ev.out = queries
+    /\ ("counter_after" \in DOMAIN Ev => Ev.counter_after = counter)     \* the transcript advanced by exactly the samples drawn
     /\ UNCHANGED <<raws, digest, counter, queries>>
 
 PointsEv ==
